@@ -484,6 +484,13 @@ class _Walker:
         return n
 
     def narrow(self, test, env, positive):
+        # name.startswith('_'): the name denotes a private slot, never a registry property
+        if positive and isinstance(test, ast.Call) and isinstance(test.func, ast.Attribute) and test.func.attr == 'startswith' \
+                and isinstance(test.func.value, ast.Name) and len(test.args) == 1 and isinstance(test.args[0], ast.Constant) \
+                and test.args[0].value == '_':
+            env = dict(env)
+            env['@underscore:' + test.func.value.id] = T('bool')
+            return env
         # isinstance(name, X) narrowing
         if isinstance(test, ast.UnaryOp) and isinstance(test.op, ast.Not):
             return self.narrow(test.operand, env, not positive)
@@ -934,6 +941,8 @@ class _Walker:
                 out.add('super:' + attr)
             elif tag == 'builtin:object' and attr == '__new__':
                 out.add('builtin:__new__')
+            elif tag == 'builtin:object' and attr == '__setattr__':
+                out.add('role:setattr')
             elif tag.startswith('builtin:') and tag[8:] in ('int', 'str', 'bytes', 'float', 'dict', 'list'):
                 out.add(f'bmeth:{tag[8:]}.{attr}')
             elif tag in ('str', 'bytes', 'bytearray', 'list', 'dict', 'tuple', 'set', 'bitarray', 'int', 'float',
@@ -1086,6 +1095,19 @@ class _Walker:
                     for g in m.winner(c, nm):
                         targets.append((g, ctx))
                 out.add(c)
+            elif tag == 'role:setattr':
+                # object.__setattr__(obj, name, value): runs the fset of whatever property the name denotes —
+                # for a mutable bitstring that can be any registry setter (Register.add_dtype installs them on BitArray)
+                at = self.fa.expr_type.get(id(e.args[0]), ANY) if e.args else ANY
+                fam = sorted(x for x in at if x in FAMILY and 'BitArray' in m.mro[x])
+                if len(e.args) > 1 and isinstance(e.args[1], ast.Name) and ('@underscore:' + e.args[1].id) in env and \
+                        not any(n.startswith('_') for n in list(m.dtype_names('le')) + list(m.dtype_names('be'))):
+                    fam = []      # a slot assignment: no registry name starts with an underscore
+                for g, c in R.registry_set:
+                    for x in fam:
+                        targets.append((g, x))
+                self.add_call(e, 'call', '__setattr__', targets, recv=None, recv_type=at, args=args, role='set0', external='object.__setattr__')
+                return T('none')
             elif tag.startswith('role:'):
                 role = tag[5:]
                 if role.endswith('0'):      # the raw registry function handed to DtypeDefinition.__init__
@@ -1264,7 +1286,9 @@ class _Walker:
             return out or ANY
         if meth == '__setattr__' and dc in FAMILY and not any(
                 m.next_in_mro(c, dc, meth) for c in ([self.ctx] if self.ctx else self.R.family(dc))):
-            self.add_call(e, 'call', meth, [], external='object.__setattr__', args=e.args)
+            ctxs0 = [self.ctx] if self.ctx else sorted(self.R.family(dc))
+            tg = [(g, x) for g, c in self.R.registry_set for x in ctxs0 if x and 'BitArray' in m.mro.get(x, ())]
+            self.add_call(e, 'call', meth, tg, external='object.__setattr__', args=e.args, role='set0')
             return T('none')
         ctxs = [self.ctx] if self.ctx else (self.R.family(dc) if dc in FAMILY else [dc])
         targets, out, known = [], set(), True
